@@ -30,3 +30,39 @@ const("fetcher_fetch_timeout_ms", "ant-networking/src/replication_fetcher.rs",
       r"const FETCH_TIMEOUT: Duration = Duration::from_secs\(([\d_]+)\);", conv=lambda t: num(t) * 1000)
 const("fetcher_pending_timeout_ms", "ant-networking/src/replication_fetcher.rs",
       r"const PENDING_TIMEOUT: Duration = Duration::from_secs\(([\d_]+)\);", conv=lambda t: num(t) * 1000)
+
+
+# ---- ant-networking/src/cmd.rs (C08): which fetcher methods the driver glue calls, and in which order.
+# Fails closed: an arm that can no longer be delimited, or a FetchCompleted arm that does not call exactly
+# one fetcher method, leaves the constant undefined.
+def _fetcher_arm(src, start, stop):
+    h = src.find("fn handle_local_cmd(&mut self")
+    if h < 0 or src.find("fn handle_local_cmd(&mut self", h + 1) >= 0:
+        raise ValueError("SwarmDriver::handle_local_cmd not found exactly once")
+    e = src.find("pub mod verif", h)
+    src = src[h:e if e > 0 else len(src)]
+    i = src.find(start)
+    if i < 0 or src.find(start, i + 1) >= 0:
+        raise ValueError("arm %r not found exactly once" % start)
+    j = src.find(stop, i + len(start))
+    if j < 0:
+        raise ValueError("end marker %r of the arm not found" % stop)
+    return re.findall(r"\.\s*replication_fetcher\s*\.\s*(\w+)\s*\(", src[i:j])
+
+
+def _fetcher_arm_fetch_completed(src):
+    calls = _fetcher_arm(src, "LocalSwarmCmd::FetchCompleted((key, record_type)) => {", "LocalSwarmCmd::")
+    if len(calls) != 1:
+        raise ValueError("FetchCompleted arm calls %r on the fetcher" % (calls,))
+    return calls[0]
+
+
+def _fetcher_arm_put(src):
+    calls = _fetcher_arm(src, "LocalSwarmCmd::PutLocalRecord { record } => {", "LocalSwarmCmd::AddLocalRecordAsStored")
+    if not calls:
+        raise ValueError("PutLocalRecord arm does not touch the fetcher")
+    return calls
+
+
+const("fetcher_arm_fetch_completed", "ant-networking/src/cmd.rs", _fetcher_arm_fetch_completed, ty="string")
+const("fetcher_arm_put_calls", "ant-networking/src/cmd.rs", _fetcher_arm_put, ty="list string")
